@@ -182,7 +182,7 @@ theorem array_wl (fo : FloatOracle) (x et tt : Byte)
 
 /-- a compound whose values satisfy `ValSpec`: the `compLoop` level statement -/
 theorem comp_cl (fo : FloatOracle) (dep need : Nat) (es : List Entry)
-    (hval : ∀ e ∈ es, ValSpec fo e.w e.tag e.payload dep need) :
+    (hval : ∀ e ∈ es, ValSpec fo e.w e.tag e.payload dep need) (hkeys : ∀ e ∈ es, e.key.length ≤ maxStrLen) :
     CLSpec fo (wKvs es ++ [125]) (encEntries es ++ [0]) dep (need + es.length + 1) := by
   intro pre k s o acc f he ht hdep hf
   obtain ⟨f, rfl⟩ : ∃ f', f = f' + 1 := ⟨f - 1, by omega⟩
@@ -228,7 +228,7 @@ theorem comp_cl (fo : FloatOracle) (dep need : Nat) (es : List Entry)
     simp [encEntries, wKvs, joinElems]
   | cons e0' rest0 =>
     rw [← hes]
-    have hspec := compLoop_spec fo dep need es (by rw [hes]; simp) hval (pre ++ [123]) k
+    have hspec := compLoop_spec fo dep need es (by rw [hes]; simp) hval hkeys (pre ++ [123]) k
       { s with st := .compoundOrEmpty, stack := .compoundName :: s.stack } s.stack o acc (f + 1)
       (Or.inl rfl) rfl he ht (by omega) (by omega)
     rw [← hD1, ← hl1, hfin] at hspec
@@ -466,7 +466,7 @@ theorem isTokL_float (w : Bytes) (hw : FloatText w) (l : Byte) (hl : l = 70 ∨ 
 /-- an element of a list of literals: one token (also at the head of a list) that `parseLiteral` reads as a value of
 tag `e` with payload `payload` -/
 def LitEl (fo : FloatOracle) (e : Byte) (w payload : Bytes) : Prop :=
-  IsTok w ∧ IsTokL w ∧ ∃ v, parseLiteral fo w = .ok (e, some v) ∧ litPayload v = payload
+  IsTok w ∧ IsTokL w ∧ ∃ v, parseLiteral fo w = .ok (e, some v) ∧ litPayload v = payload ∧ litOk v = true
 
 theorem finish_sep_list (sL : Scanner) (σ : List PS) (h : sL.stack = .listValue :: σ) (r : List Bytes) (k : Bytes) :
     finish sL (sepJoin r ++ 93 :: k) =
@@ -497,7 +497,7 @@ theorem litListLoop_spec (fo : FloatOracle) (e : Byte) :
   | nil =>
     intro _ w payload hw pre k sL σ elemType count buf f hst he ht het hf
     obtain ⟨f, rfl⟩ : ∃ f', f = f' + 1 := ⟨f - 1, by omega⟩
-    obtain ⟨_, _, v, hpl, hpay⟩ := hw
+    obtain ⟨_, _, v, hpl, hpay, hok⟩ := hw
     simp only [List.map_nil, sepJoin, List.nil_append, List.length_nil, List.flatten_nil, List.append_nil]
     have hfin : finish sL (93 :: k) = (pop sL, .endValue) := by unfold finish; exact stEndValue_close_list sL σ hst
     rw [hfin]
@@ -507,14 +507,14 @@ theorem litListLoop_spec (fo : FloatOracle) (e : Byte) :
     have hety : (if (elemType == 0) = true then e else elemType) = e := by
       rcases het with h | h <;> subst h <;> simp
     rw [hety]
-    simp only [bne_self_eq_false, Bool.false_eq_true, if_false]
+    simp only [bne_self_eq_false, Bool.false_eq_true, if_false, hok, Bool.not_true]
     rw [skip_mk _ _ _ _ (by decide)]
     simp [hpay]
   | cons x rest ih =>
     intro hall w payload hw pre k sL σ elemType count buf f hst he ht het hf
     obtain ⟨f, rfl⟩ : ∃ f', f = f' + 1 := ⟨f - 1, by simp at hf; omega⟩
     obtain ⟨w2, p2⟩ := x
-    obtain ⟨_, _, v, hpl, hpay⟩ := hw
+    obtain ⟨_, _, v, hpl, hpay, hok⟩ := hw
     have hx := hall (w2, p2) (by simp)
     generalize hT : sepJoin (rest.map (fun x : Bytes × Bytes => x.1)) = T at ih
     have hsep : sepJoin (((w2, p2) :: rest).map (fun x : Bytes × Bytes => x.1)) = 44 :: (w2 ++ T) := by
@@ -531,7 +531,7 @@ theorem litListLoop_spec (fo : FloatOracle) (e : Byte) :
     have hety : (if (elemType == 0) = true then e else elemType) = e := by
       rcases het with h | h <;> subst h <;> simp
     rw [hety]
-    simp only [bne_self_eq_false, Bool.false_eq_true, if_false]
+    simp only [bne_self_eq_false, Bool.false_eq_true, if_false, hok, Bool.not_true]
     rw [skip_mk _ _ _ _ (by decide)]
     simp only [show (Op.listValue == Op.error) = false by decide, show (Op.listValue == Op.endValue) = false by decide,
       show (Op.listValue != Op.listValue) = false by decide, Bool.false_eq_true, if_false]
